@@ -220,6 +220,21 @@ class Interp:
         t = self.st.branch(r, 'eq')
         if t and isinstance(a, (str, SStr)) and isinstance(b, (str, SStr)): self.st.unify(a, b)
         return t
+    def key_eq(self, a, b):
+        """do a and b denote the same key of a dict / set / functools.lru_cache table?  CPython: same object, or equal hashes AND ==.
+        Hashes of strings are taken to be injective (A-hash: no accidental collisions); an object without __hash__ hashes by identity."""
+        if a is b and not isinstance(a, SStr): return True
+        if isinstance(a, tuple) and isinstance(b, tuple):
+            return len(a) == len(b) and all(self.key_eq(x, y) for x, y in zip(a, b))
+        if isinstance(a, PObj) or isinstance(b, PObj):
+            ha, hb = _b_hash(self, a), _b_hash(self, b)
+            if not (isinstance(ha, HashOf) and isinstance(hb, HashOf)): raise OutsideSubset('__hash__ returning a non-hash value')
+            if isinstance(ha.of, PObj) or isinstance(hb.of, PObj): return False          # identity hash of an object without __hash__ (a is not b)
+            if isinstance(ha.of, ReprOf) != isinstance(hb.of, ReprOf): return False
+            he = ha.pyvc_eq(self, hb)
+            if he is False: return False
+            if he is not True and not self.st.branch(he, 'hash-eq'): return False
+        return self.known_eq(a, b)
     def conj(self, rs):
         if any(r is False for r in rs): return False
         zs = [r.z for r in rs if r is not True]
@@ -625,11 +640,11 @@ class Interp:
             return False
         if isinstance(container, PSet):
             for y in container.items:
-                if self.known_eq(y, x): return True
+                if self.key_eq(y, x): return True
             return False
         if isinstance(container, PDict):
             for k, _ in container.items:
-                if self.known_eq(k, x): return True
+                if self.key_eq(k, x): return True
             return False
         if isinstance(container, (str, SStr)) and isinstance(x, (str, SStr)):
             x = simp(self.st.norm(x)) if isinstance(x, SStr) else x
@@ -733,7 +748,7 @@ class Interp:
             return o[i]
         if isinstance(o, PDict):
             for k, v in o.items:
-                if self.known_eq(k, i): return v
+                if self.key_eq(k, i): return v
             if isinstance(o, PDefaultDict) and o.factory is not None:
                 v = self.call(o.factory, [], {}); o.items.append([i, v]); return v
             self.raise_('KeyError', i if isinstance(i, (str, SStr)) else 'key')
@@ -774,7 +789,7 @@ class Interp:
     def dict_set(self, d, k, v):
         if isinstance(k, (PDict, list, PSet)): self.raise_('TypeError', 'unhashable type')
         for kv in d.items:
-            if self.known_eq(kv[0], k): kv[1] = v; return
+            if self.key_eq(kv[0], k): kv[1] = v; return
         d.items.append([k, v])
     # ---------------- statements
     def exec_block(self, body, env, module=None, toplevel=False):
@@ -1454,7 +1469,7 @@ STR_METHODS = {'count': _s_count, 'split': _s_split, 'rsplit': _s_rsplit, 'join'
 # ------------------------------------------------------------------ dict methods
 def _d_get(it, d, k, default=None):
     for kk, v in d.items:
-        if it.known_eq(kk, k): return v
+        if it.key_eq(kk, k): return v
     return default
 def _d_update(it, d, other=None, **kw):
     if isinstance(other, PDict):
@@ -1466,7 +1481,7 @@ def _d_update(it, d, other=None, **kw):
     for k, v in kw.items(): it.dict_set(d, k, v)
 def _d_pop(it, d, k, *default):
     for i, (kk, v) in enumerate(d.items):
-        if it.known_eq(kk, k): del d.items[i]; return v
+        if it.key_eq(kk, k): del d.items[i]; return v
     if default: return default[0]
     it.raise_('KeyError', k if isinstance(k, (str, SStr)) else 'key')
 def _d_popitem(it, d):
@@ -1474,7 +1489,7 @@ def _d_popitem(it, d):
     return tuple(d.items.pop())
 def _d_setdefault(it, d, k, default=None):
     for kk, v in d.items:
-        if it.known_eq(kk, k): return v
+        if it.key_eq(kk, k): return v
     d.items.append([k, default]); return default
 DICT_METHODS = {'get': _d_get, 'copy': lambda it, d: PDict(d.items), 'keys': lambda it, d: DictKeys(d), 'values': lambda it, d: [v for _, v in d.items],
                 'items': lambda it, d: [(k, v) for k, v in d.items], 'update': _d_update, 'pop': _d_pop, 'popitem': _d_popitem,
@@ -1502,7 +1517,7 @@ LIST_METHODS = {'append': lambda it, l, x: l.append(x), 'extend': _l_extend, 'co
 def _set_add(it, s, x):
     if isinstance(x, (PDict, list, PSet)): it.raise_('TypeError', 'unhashable type')
     for y in s.items:
-        if it.known_eq(y, x): return
+        if it.key_eq(y, x): return
     s.items.append(x)
 def _set_union(it, s, *others):
     r = PSet(s.items)
